@@ -1,7 +1,7 @@
 (* C11 — boolean comparison of the model with observations of the implementation (used by K only). *)
 From Coq Require Import List Arith Bool ZArith QArith PrimFloat.
 Import ListNotations.
-From AgileV Require Import C11.Model.
+From AgileV Require Import C11.Model C11.Strict.
 Local Open Scope nat_scope.
 
 Fixpoint list_eqb {A} (eqb : A -> A -> bool) (a b : list A) : bool :=
@@ -18,6 +18,7 @@ Variable C : carrier.
 Variables powa powb : C -> C.
 Variable eqb : C -> C -> bool.            (* exact equality of carrier values *)
 Variable wclose : C -> C -> bool.         (* model weight vs observed weight (stored as float32 by the code) *)
+Variable strict : bool.                   (* which assertion _update_priority makes: idx < max_size (false) or idx < len (true) *)
 
 (* after one op: len(buffer), tree_ptr, max_priority, optionally both tree arrays,
    "an AssertionError was raised", result of sample (indices, weights),
@@ -32,7 +33,7 @@ Definition check_range (s : per C) (r : rng1) : bool :=
 
 Definition check_one (s : per C) (o : pop C) (ob : obs1) : per C * bool :=
   let '(len, ptr, maxp, trees, raised, smp, rngs) := ob in
-  let '(s', mraised) := per_step C powa s o in
+  let '(s', mraised) := per_step_g C powa strict s o in
   let base :=
     Nat.eqb len (size C s') && Nat.eqb ptr (tree_ptr C s') && eqb maxp (max_prio C s') &&
     match trees with
@@ -66,13 +67,13 @@ Definition feqb (a b : float) : bool := PrimFloat.eqb a b.
 Definition fclose32 (m o : float) : bool :=
   PrimFloat.leb (PrimFloat.abs (PrimFloat.sub m o)) (PrimFloat.mul (PrimFloat.abs m) 0x1p-23%float).
 
-Definition check_float (m : nat) (tabA tabB : list (float * float))
+Definition check_float (strict : bool) (m : nat) (tabA tabB : list (float * float))
            (ops : list (@pop FC)) (obs : list (obs1 FC)) : bool :=
-  check_trace FC (tab_pow tabA) (tab_pow tabB) feqb fclose32 (per_init FC m) ops obs.
+  check_trace FC (tab_pow tabA) (tab_pow tabB) feqb fclose32 strict (per_init FC m) ops obs.
 
 (* ---- exact instance (alpha = 1, weights not compared) ---- *)
-Definition check_exact (m : nat) (ops : list (@pop QC)) (obs : list (obs1 QC)) : bool :=
-  check_trace QC (fun x => x) (fun _ => 1%Q) Qeq_bool (fun _ _ => true) (per_init QC m) ops obs.
+Definition check_exact (strict : bool) (m : nat) (ops : list (@pop QC)) (obs : list (obs1 QC)) : bool :=
+  check_trace QC (fun x => x) (fun _ => 1%Q) Qeq_bool (fun _ _ => true) strict (per_init QC m) ops obs.
 
 (* constructors with the carrier fixed, for generated case files *)
 Definition FAdd (n : nat) : pop FC := Add n.
